@@ -371,6 +371,12 @@ impl MempoolInner {
         let ttx_to_insert = TimemarkedTransaction::new(checked_tx, transaction_costs);
         let tx_id_to_insert = *ttx_to_insert.id();
 
+        // A transaction which is already held (in either container) must not be added a second
+        // time: a parked transaction would otherwise also be accepted into pending.
+        if self.contained_txs.contains(&tx_id_to_insert) {
+            return Err(InsertionError::AlreadyPresent);
+        }
+
         // try insert into pending
         match self.pending.add(
             ttx_to_insert.clone(),
